@@ -168,6 +168,20 @@ CHECKS["C12"] = dict(
     modelled="getHost, HandleDownload (hand transcription); random picker as environment answer; ServeContent, URL parsing, session "
              "middleware exercised only; user tokens switched off (C15).")
 
+CHECKS["C05"] = dict(
+    text="Theorems over the transcription of main()'s route table on the gateway prefix and the Basic/NTLM middlewares, for all "
+         "mechanism subsets, all lists of Authorization values and all backend answers: the tunnel handler runs only if the first "
+         "Authorization value carries credentials of an enabled scheme that the backend confirmed, with the confirmed name as the "
+         "tunnel's identity; no header (or an empty first value) gives 401 with one challenge per registered scheme in order; "
+         "OpenID alone leaves the endpoint open; confirmed NTLM credentials always reach the handler and confirmed Basic "
+         "credentials do when no Authorization value contains an earlier route's keyword (C05_confirmed_basic_reaches_partial); "
+         "the unrestricted converse is refuted by a witness (known finding route-shadowing). The real binary runs 12 mechanism "
+         "subsets against a scriptable gRPC authentication service with ~37 header shapes x 4 methods, NTLM sequences on one and "
+         "on different connections.",
+    design="7/C05", technique="Coq proof (case analysis over the route table; refutation witness) + real-binary correspondence",
+    modelled="route table, NoAuthz/AuthMux, BasicAuth, NTLMAuth (hand transcription; mux patterns as unanchored substring tests); "
+             "SPNEGO only as 'does not reach the handler'; cmd/auth/auth.go not buildable here.")
+
 NOT_YET = {}
 
 
